@@ -6,6 +6,8 @@ import (
 	"errors"
 	"fmt"
 	"io"
+	"sync"
+	"sync/atomic"
 
 	"connectrpc.com/connect"
 	"connectrpc.com/vanguard"
@@ -160,36 +162,93 @@ func rleDecompress(tag byte, src []byte) ([]byte, error) {
 	return out, nil
 }
 
-type rleCompressor struct {
-	tag byte
-	buf bytes.Buffer
-	dst io.Writer
+// The fake compressors are stateful in the way gzip's are: they refuse to work unless Reset since
+// the last Close, the decompressor parses its header in Reset (so Reset can fail) and keeps
+// undelivered output around, and both notice being entered by two goroutines at once. Misuse is
+// recorded and shows up in the observation as poolviol=.
+
+var fakeViolations struct {
+	sync.Mutex
+	list []string
 }
 
-func (c *rleCompressor) Write(p []byte) (int, error) { return c.buf.Write(p) }
-func (c *rleCompressor) Close() error {
-	_, err := c.dst.Write(rleCompress(c.tag, c.buf.Bytes()))
-	c.buf.Reset()
-	return err
+func fakeViolation(v string) {
+	fakeViolations.Lock()
+	fakeViolations.list = append(fakeViolations.list, v)
+	fakeViolations.Unlock()
 }
-func (c *rleCompressor) Reset(w io.Writer) { c.buf.Reset(); c.dst = w }
+
+func takeFakeViolations() []string {
+	fakeViolations.Lock()
+	defer fakeViolations.Unlock()
+	l := fakeViolations.list
+	fakeViolations.list = nil
+	return l
+}
+
+type busyFlag struct{ n atomic.Int32 }
+
+func (b *busyFlag) enter(what string) func() {
+	if b.n.Add(1) != 1 {
+		fakeViolation(what + "-entered-concurrently")
+	}
+	return func() { b.n.Add(-1) }
+}
+
+type rleCompressor struct {
+	busyFlag
+	tag   byte
+	buf   bytes.Buffer
+	dst   io.Writer
+	ready bool
+}
+
+func (c *rleCompressor) Write(p []byte) (int, error) {
+	defer c.enter("compressor")()
+	if !c.ready {
+		fakeViolation("compressor-written-without-reset")
+	}
+	return c.buf.Write(p)
+}
+func (c *rleCompressor) Close() error {
+	defer c.enter("compressor")()
+	if !c.ready {
+		fakeViolation("compressor-closed-without-reset")
+	}
+	c.ready = false
+	_, err := c.dst.Write(rleCompress(c.tag, c.buf.Bytes()))
+	return err // like gzip, the state is only cleared by Reset
+}
+func (c *rleCompressor) Reset(w io.Writer) {
+	defer c.enter("compressor")()
+	c.buf.Reset()
+	c.dst, c.ready = w, true
+}
 
 type rleDecompressor struct {
-	tag  byte
-	src  io.Reader
-	out  *bytes.Reader
-	done bool
+	busyFlag
+	tag   byte
+	src   io.Reader
+	out   *bytes.Reader
+	done  bool
+	ready bool
+	bad   bool
 }
 
 func (d *rleDecompressor) Read(p []byte) (int, error) {
+	defer d.enter("decompressor")()
+	if !d.ready {
+		fakeViolation("decompressor-read-without-reset")
+	}
 	if !d.done {
 		d.done = true
 		all, err := io.ReadAll(d.src)
 		if err != nil {
 			return 0, err
 		}
-		dec, err := rleDecompress(d.tag, all)
+		dec, err := rleDecompress(d.tag, append([]byte{d.tag}, all...))
 		if err != nil {
+			d.bad = true
 			return 0, err
 		}
 		d.out = bytes.NewReader(dec)
@@ -199,9 +258,19 @@ func (d *rleDecompressor) Read(p []byte) (int, error) {
 	}
 	return d.out.Read(p)
 }
-func (d *rleDecompressor) Close() error { return nil }
+func (d *rleDecompressor) Close() error {
+	defer d.enter("decompressor")()
+	d.ready = false
+	return nil
+}
 func (d *rleDecompressor) Reset(r io.Reader) error {
-	d.src, d.out, d.done = r, nil, false
+	defer d.enter("decompressor")()
+	d.src, d.out, d.done, d.bad, d.ready = r, nil, false, false, false
+	var hdr [1]byte
+	if _, err := io.ReadFull(r, hdr[:]); err != nil || hdr[0] != d.tag {
+		return errors.New("rle: bad tag")
+	}
+	d.ready = true
 	return nil
 }
 
